@@ -44,13 +44,33 @@ Qed.
 
 Definition items_of (l : list imp) : list item := flat_map imp_items l.
 
-Lemma items_rm_imps moved b it :
-  In it (items_of (rm_imps moved b)) <-> (In it (items_of b) /\ memb it moved = false).
+Lemma top_items_cons s m :
+  top_items (s :: m) = items_of (match s with SImp i => [i] | _ => [] end) ++ top_items m.
+Proof. unfold top_items, items_of, top_imps. simpl. now rewrite flat_map_app. Qed.
+
+Lemma nested_cons s m : nested_run_items (s :: m) = items_of (stmt_nested_run s) ++ nested_run_items m.
+Proof. unfold nested_run_items, items_of. simpl. now rewrite flat_map_app. Qed.
+
+Lemma run_items_cons s m : run_items (s :: m) = items_of (stmt_run_imps s) ++ run_items m.
+Proof. unfold run_items, items_of. simpl. now rewrite flat_map_app. Qed.
+
+Lemma run_items_split m it : In it (run_items m) <-> In it (top_items m) \/ In it (nested_run_items m).
 Proof.
-  induction b as [|i r IH]; simpl; [tauto|].
-  unfold items_of in *. simpl.
+  induction m as [|s r IH]; [unfold run_items, top_items, nested_run_items; simpl; tauto|].
+  rewrite run_items_cons, top_items_cons, nested_cons, !in_app_iff, IH.
+  destruct s; unfold items_of; simpl; tauto.
+Qed.
+
+Lemma top_items_simp i m it : In it (top_items (SImp i :: m)) <-> In it (imp_items i) \/ In it (top_items m).
+Proof. rewrite top_items_cons, in_app_iff. unfold items_of. simpl. now rewrite app_nil_r. Qed.
+
+Lemma top_items_remove moved m it :
+  In it (top_items (remove moved m)) <-> (In it (top_items m) /\ memb it moved = false).
+Proof.
+  induction m as [|s r IH]; [unfold top_items; simpl; tauto|].
+  destruct s; simpl; try (rewrite !top_items_cons; simpl; exact IH).
   pose proof (rm_imp_items moved i it) as Hi.
-  destruct (rm_imp moved i) as [i'|] eqn:E; simpl; rewrite ?in_app_iff, IH.
+  destruct (rm_imp moved i) as [i'|] eqn:E; rewrite ?top_items_simp, IH.
   - split.
     + intros [H | [H1 H2]]; [|tauto].
       destruct (proj1 Hi (ex_intro _ i' (conj eq_refl H))) as [A B]. tauto.
@@ -61,47 +81,17 @@ Proof.
     destruct (proj2 Hi (conj H Hm)) as [i'' [X _]]; discriminate.
 Qed.
 
-Lemma items_rm_body moved c b it :
-  In it (items_of (pick c (rm_body moved b))) <-> (In it (items_of (pick c b)) /\ memb it moved = false).
+Lemma nested_remove moved m : nested_run_items (remove moved m) = nested_run_items m.
 Proof.
-  induction b as [|[c' i] r IH]; simpl; [tauto|].
-  unfold items_of, pick in *. simpl. rewrite flat_map_app, in_app_iff.
-  destruct (rm_imp moved i) as [i'|] eqn:E; simpl.
-  - rewrite flat_map_app, in_app_iff, IH.
-    assert (X : In it (flat_map imp_items match c', c with CRun, CRun | CLocal, CLocal | CTC, CTC => [i'] | _, _ => [] end)
-                <-> In it (flat_map imp_items match c', c with CRun, CRun | CLocal, CLocal | CTC, CTC => [i] | _, _ => [] end)
-                    /\ memb it moved = false).
-    { destruct c', c; simpl; try tauto; rewrite !app_nil_r; rewrite <- (rm_imp_items moved i it);
-        (split; [intro H; now exists i' | intros [i'' [Y H]]; rewrite E in Y; now injection Y as <-]). }
-    rewrite X. tauto.
-  - rewrite IH.
-    assert (X : In it (flat_map imp_items match c', c with CRun, CRun | CLocal, CLocal | CTC, CTC => [i] | _, _ => [] end)
-                -> memb it moved = false -> False).
-    { destruct c', c; simpl; try tauto; rewrite !app_nil_r; intros H1 H2;
-        destruct (proj2 (rm_imp_items moved i it) (conj H1 H2)) as [i'' [Y _]]; rewrite E in Y; discriminate. }
-    split; [tauto|]. intros [[H|H] Hm]; [exfalso; eauto | tauto].
+  induction m as [|s r IH]; [reflexivity|].
+  destruct s; simpl; rewrite ?nested_cons, ?IH; try reflexivity.
+  destruct (rm_imp moved i); rewrite ?nested_cons, ?IH; reflexivity.
 Qed.
 
 Lemma run_items_remove moved m it :
-  In it (run_items (remove moved m)) <-> (In it (run_items m) /\ memb it moved = false).
-Proof.
-  unfold run_items. induction m as [|s r IH]; simpl; [tauto|].
-  destruct s; simpl; try exact IH.
-  - pose proof (rm_imp_items moved i it) as Hi.
-    destruct (rm_imp moved i) as [i'|] eqn:E; simpl; rewrite ?app_nil_r, ?in_app_iff, IH.
-    + split.
-      * intros [H | [H1 H2]]; [|tauto].
-        destruct (proj1 Hi (ex_intro _ i' (conj eq_refl H))) as [A B]. tauto.
-      * intros [[H|H] Hm]; [|tauto].
-        destruct (proj2 Hi (conj H Hm)) as [i'' [X Y]]. injection X as <-. now left.
-    + split; [tauto|].
-      intros [[H|H] Hm]; [|tauto].
-      destruct (proj2 Hi (conj H Hm)) as [i'' [X _]]; discriminate.
-  - rewrite !flat_map_app, !in_app_iff, IH. fold (items_of (pick CRun (rm_body moved body))).
-    rewrite items_rm_body. unfold items_of. tauto.
-  - rewrite !flat_map_app, !in_app_iff, IH. fold (items_of (pick CRun (rm_body moved body))).
-    rewrite items_rm_body. unfold items_of. tauto.
-Qed.
+  In it (run_items (remove moved m)) <->
+  ((In it (top_items m) /\ memb it moved = false) \/ In it (nested_run_items m)).
+Proof. now rewrite run_items_split, top_items_remove, nested_remove. Qed.
 
 Lemma run_items_app a b : run_items (a ++ b) = run_items a ++ run_items b.
 Proof. unfold run_items. now rewrite !flat_map_app. Qed.
@@ -110,9 +100,6 @@ Proof. unfold tc_items. now rewrite !flat_map_app. Qed.
 
 (* ------------------------------------------------------------ run-time items through the insertions *)
 Definition tc_item : item := Item "typing" (Some "TYPE_CHECKING"%string) None.
-
-Lemma run_items_cons s m : run_items (s :: m) = items_of (stmt_run_imps s) ++ run_items m.
-Proof. unfold run_items, items_of. simpl. now rewrite flat_map_app. Qed.
 
 Lemma run_items_add_first m it :
   (In it (run_items m) -> In it (run_items (add_first m)))
@@ -191,25 +178,67 @@ Proof.
   rewrite tc_items_cons, in_app_iff. now left.
 Qed.
 
-(* ------------------------------------------------------------ clause 2b: no new run-time import *)
-Theorem confine_no_new_runtime moved src applied :
-  (forall it, In it (run_items applied) -> allowed_runtime src it = true \/ In it moved) ->
-  forall it, In it (run_items (confine_with moved applied)) -> allowed_runtime src it = true.
+Lemma nested_add_first m : nested_run_items (add_first m) = nested_run_items m.
 Proof.
-  intros H it Hit. unfold confine_with in Hit.
-  apply run_items_insert_block in Hit. apply run_items_remove in Hit as [Hit Hm].
-  apply run_items_add_tc in Hit as [Hit | ->].
-  - destruct (H it Hit) as [X | X]; [exact X|]. apply memb_In in X. rewrite X in Hm. discriminate.
-  - unfold allowed_runtime. replace (runtime_module (i_mod tc_item)) with true by reflexivity.
-    now rewrite orb_true_r.
+  induction m as [|s r IH]; [reflexivity|]. destruct s; try reflexivity.
+  destruct i; simpl; rewrite ?nested_cons, ?IH; try reflexivity.
+  destruct (String.eqb md "typing"); rewrite ?nested_cons, ?IH; reflexivity.
 Qed.
 
-(* half of clause 2a: nothing that is moved stays at run-time level *)
-Theorem confine_moved_not_runtime moved applied it :
-  In it moved -> ~ In it (run_items (confine_with moved applied)).
+Lemma nested_insert_after_block i m : nested_run_items (insert_after_block (SImp i) m) = nested_run_items m.
+Proof.
+  induction m as [|s r IH]; [reflexivity|]. destruct s; try reflexivity.
+  simpl. now rewrite !nested_cons, IH.
+Qed.
+
+Lemma nested_add_tc m : nested_run_items (add_tc m) = nested_run_items m.
+Proof.
+  assert (B : forall m, nested_run_items (add_tc_body m) = nested_run_items m).
+  { intro m0. unfold add_tc_body. destruct (_ || _); [reflexivity|].
+    destruct (typing_from _); [apply nested_add_first | apply nested_insert_after_block]. }
+  unfold add_tc. destruct m as [|s r]; [apply B|]. destruct s; try apply B.
+  now rewrite !nested_cons, B.
+Qed.
+
+Lemma top_items_insert_go b m it :
+  In it (top_items (insert_after_last_go (SIfTC b) m)) <-> In it (top_items m).
+Proof.
+  induction m as [|s r IH]; simpl; [unfold top_items; simpl; tauto|].
+  destruct (existsb is_simp r).
+  - rewrite !top_items_cons, !in_app_iff, IH. tauto.
+  - rewrite !top_items_cons. simpl. tauto.
+Qed.
+
+Lemma top_items_insert_block moved m it :
+  In it (top_items (insert_block moved m)) <-> In it (top_items m).
+Proof.
+  unfold insert_block. destruct moved; [tauto|]. unfold insert_after_last.
+  destruct (existsb is_simp m); [apply top_items_insert_go|]. rewrite top_items_cons. simpl. tauto.
+Qed.
+
+(* ------------------------------------------------------------ clause 3: no new run-time import *)
+Theorem confine_no_new_runtime moved src applied :
+  (forall it, In it (top_items applied) -> allowed_runtime src it = true \/ In it moved) ->
+  (forall it, In it (nested_run_items applied) -> allowed_runtime src it = true) ->
+  forall it, In it (run_items (confine_with moved applied)) -> allowed_runtime src it = true.
+Proof.
+  intros H Hn it Hit. unfold confine_with in Hit.
+  apply run_items_insert_block in Hit. apply run_items_remove in Hit as [[Hit Hm] | Hit].
+  - assert (R : In it (run_items (add_tc applied))) by (apply run_items_split; now left).
+    apply run_items_add_tc in R as [R | ->].
+    + apply run_items_split in R as [R | R]; [|now apply Hn].
+      destruct (H it R) as [X | X]; [exact X|]. apply memb_In in X. rewrite X in Hm. discriminate.
+    + unfold allowed_runtime. replace (runtime_module (i_mod tc_item)) with true by reflexivity.
+      now rewrite orb_true_r.
+  - rewrite nested_add_tc in Hit. now apply Hn.
+Qed.
+
+(* half of clause 2: nothing that is moved stays in a module-level import statement *)
+Theorem confine_moved_not_toplevel moved applied it :
+  In it moved -> ~ In it (top_items (confine_with moved applied)).
 Proof.
   intros Hm Hit. unfold confine_with in Hit.
-  apply run_items_insert_block in Hit. apply run_items_remove in Hit as [_ X].
+  apply top_items_insert_block in Hit. apply top_items_remove in Hit as [_ X].
   apply memb_In in Hm. rewrite Hm in X. discriminate.
 Qed.
 
@@ -217,8 +246,8 @@ Qed.
 Lemma confine_runtime_kept moved applied it :
   In it (run_items applied) -> memb it moved = false -> In it (run_items (confine_with moved applied)).
 Proof.
-  intros H Hm. unfold confine_with. apply run_items_insert_block. apply run_items_remove. split; [|exact Hm].
-  now apply run_items_add_tc.
+  intros H Hm. unfold confine_with. apply run_items_insert_block. apply run_items_remove.
+  apply (proj1 (run_items_add_tc applied it)) in H. apply run_items_split in H as [H | H]; [left | right]; auto.
 Qed.
 
 (* ------------------------------------------------------------ clause 1: the head *)
@@ -253,28 +282,37 @@ Qed.
 Lemma insert_go_head x s r : is_simp s = true -> exists r', insert_after_last_go x (s :: r) = s :: r'.
 Proof. intros _. simpl. destruct (existsb is_simp r); eexists; reflexivity. Qed.
 
+Lemma insert_block_head l m : future_head m = true -> future_head (insert_block l m) = true.
+Proof.
+  intro H. unfold insert_block. destruct l as [|it0 l0]; [exact H|].
+  unfold insert_after_last. destruct m as [|s r]; [discriminate|].
+  destruct s; try discriminate.
+  - (* docstring, then the __future__ import *)
+    simpl in H. destruct r as [|s2 r2]; [discriminate|]. destruct s2; try discriminate.
+    simpl. destruct (existsb is_simp r2); simpl; exact H.
+  - assert (Hb : future_head_body (SImp i :: r) = true) by exact H.
+    simpl. destruct (existsb is_simp r); exact Hb.
+Qed.
+
+Lemma remove_add_tc_head moved applied :
+  (forall it, In it moved -> String.eqb (i_mod it) "__future__" = false) ->
+  future_head applied = true -> future_head (remove moved (add_tc applied)) = true.
+Proof.
+  intros Hm H. destruct applied as [|s r]; [discriminate|].
+  destruct s; try discriminate.
+  - simpl in H. destruct (future_head_body_confine moved r Hm H) as [r' [E [Hb Hs]]].
+    destruct r as [|s2 r2]; [discriminate|]. simpl List.hd in *.
+    assert (X : remove moved (add_tc (SDoc tok :: s2 :: r2)) = SDoc tok :: s2 :: r') by (simpl; now rewrite E).
+    rewrite X. simpl. destruct s2; try discriminate. exact Hb.
+  - assert (Hb : future_head_body (SImp i :: r) = true) by exact H.
+    destruct (future_head_body_confine moved _ Hm Hb) as [r' [E [_ Hs]]]. simpl List.hd in *.
+    assert (X : remove moved (add_tc (SImp i :: r)) = SImp i :: r') by exact E.
+    rewrite X. exact H.
+Qed.
+
 Theorem confine_head moved applied :
   (forall it, In it moved -> String.eqb (i_mod it) "__future__" = false) ->
   future_head applied = true -> future_head (confine_with moved applied) = true.
 Proof.
-  intros Hm H. unfold confine_with.
-  destruct applied as [|s r]; [discriminate|].
-  destruct s.
-  - (* docstring first *)
-    simpl in H. destruct (future_head_body_confine moved r Hm H) as [r' [E [Hb Hs]]].
-    destruct r as [|s2 r2]; [discriminate|]. simpl List.hd in *.
-    assert (X : remove moved (add_tc (SDoc tok :: s2 :: r2)) = SDoc tok :: s2 :: r') by (simpl; now rewrite E).
-    rewrite X. unfold insert_block. destruct moved; [simpl; exact Hb|].
-    unfold insert_after_last. simpl existsb. rewrite Hs. simpl.
-    destruct (existsb is_simp r'); simpl; destruct s2; try discriminate; exact Hb.
-  - assert (Hb : future_head_body (SImp i :: r) = true) by exact H.
-    destruct (future_head_body_confine moved _ Hm Hb) as [r' [E [_ Hs]]]. simpl List.hd in *.
-    assert (X : remove moved (add_tc (SImp i :: r)) = SImp i :: r') by exact E.
-    rewrite X. unfold insert_block. destruct moved; [exact H|].
-    unfold insert_after_last. simpl existsb. simpl.
-    destruct (existsb is_simp r'); exact H.
-  - discriminate.
-  - discriminate.
-  - discriminate.
-  - discriminate.
+  intros Hm H. unfold confine_with. apply insert_block_head. now apply remove_add_tc_head.
 Qed.
